@@ -22,7 +22,7 @@ ASSUMPTIONS = ["stdlib 3.12 is the reference; events compared are exactly pulls,
                "accumulate([]) without initial: only the pull/end events before the documented TypeError are compared"]
 EXHAUSTIVE = {"quick": False, "thorough": False}
 
-N_RANDOM = {"quick": 40000, "thorough": 1000000}
+N_RANDOM = {"quick": 150000, "thorough": 6000000}
 FLAVS = ["async_class", "async_class", "async_gen", "sync_iter", "sync_gen", "getitem_seq", "async_class_bare"]
 FNFL = ["def", "async_def", "callobj"]
 
